@@ -229,8 +229,12 @@ def flow_oracle(case, o):
     for m in set(o["prov"]):
         if m in case["starting"]:
             continue
-        legit = any(t[0] == m and ((s == "failed" and i in failed) or (s != "failed" and i in ok_nodes))
-                    for i, nd in enumerate(ns) for s, lst in nd["sig"].items() for t in lst)
+        emitted = lambda i, s: (s == "failed" and i in failed) or (s != "failed" and i in ok_nodes)     # noqa: E731
+        by_run = any(t == [m, "run"] and emitted(i, s) for i, nd in enumerate(ns) for s, lst in nd["sig"].items() for t in lst)
+        acc_src = [(i, s) for i, nd in enumerate(ns) for s, lst in nd["sig"].items() for t in lst if t == [m, "acc"]]
+        # the all-of trigger needs EVERY one of its sources to have emitted in this run
+        by_acc = bool(acc_src) and all(emitted(i, s) for i, s in acc_src)
+        legit = by_run or by_acc
         if not legit:
             return f"ran-after-failure: n{m} executed although nothing that could trigger it completed"
     return None
@@ -255,8 +259,19 @@ def gen_dag(rng):
     macro = None
     if rng.random() < 0.3:
         macro = {"x": rng.choice([-2, 13, 4]), "after": rng.randrange(n), "ex": rng.random() < 0.3}
-    return {"fam": "dag", "nodes": ns, "oracle": [rng.randint(0, 7) for _ in range(n + 1)], "macro": macro,
+    case = {"fam": "dag", "nodes": ns, "oracle": [rng.randint(0, 7) for _ in range(n + 1)], "macro": macro,
             "suppress": rng.random() < 0.2}
+    if rng.random() < 0.3:
+        # a second run of the same objects: failed flags cleared, every constant input re-assigned (other nodes fail)
+        new = []
+        for i, nd in enumerate(ns):
+            for j, inp in enumerate(nd["ins"]):
+                if inp[0] == "c":
+                    new.append([i, j, rng.randint(0, 50)])
+        for t in rng.sample(new, min(len(new), rng.choice([1, 1, 2]))):
+            t[2] = -rng.randint(1, 9)
+        case["rerun"] = {"consts": new, "oracle": [rng.randint(0, 7) for _ in range(n + 1)]}
+    return case
 
 
 def run_dag(case):
@@ -291,6 +306,35 @@ def run_dag(case):
             mac.executor = ex
     everyone = ch + ([mac] if mac else [])
     oracle = list(case["oracle"])
+    rr = case.get("rerun")
+    prev_outs = None
+    if rr:
+        # history prefix: a first run (whatever its end), flags cleared, constants re-assigned
+        o1 = list(case["oracle"])
+
+        def hook1():
+            outs = [i for i, c in enumerate(everyone) if c.running and c.future is not None and not c.future.done()]
+            if not outs:
+                return False
+            ex.complete(everyone[outs[(o1.pop(0) if o1 else 0) % len(outs)]].future)
+            return True
+        with nodes.poll_hook(hook1):
+            try:
+                wf.run(raise_run_exceptions=not case["suppress"])
+            except BaseException as e:      # noqa
+                if isinstance(e, (KeyboardInterrupt, SystemExit)):
+                    raise
+        for c in everyone:
+            if c.future is not None and not c.future.done():
+                ex.complete(c.future)
+        for c in [wf] + everyone + (list(mac) if mac else []):
+            c.failed = False
+            c.running = False
+        for i, j, v in rr["consts"]:
+            ch[i].inputs[nodes.ARG[j]].value = v
+        prev_outs = [_slot(c.outputs[c.outputs.labels[0]].value) for c in everyone]
+        nodes.reset()
+        oracle = list(rr["oracle"])
 
     def hook():
         outs = [i for i, c in enumerate(everyone) if c.running and c.future is not None and not c.future.done()]
@@ -322,7 +366,8 @@ def run_dag(case):
            "wf": [bool(wf.failed), bool(wf.running)], "pending_jobs": pending,
            "raised": sorted({t for t, a in nodes.CALLS if any(x < 0 for x in a)}),
            "called": sorted({t for t, a in nodes.CALLS}),
-           "mac_children": ([[bool(c.failed), bool(c.running)] for c in mac] if mac else [])}
+           "mac_children": ([[bool(c.failed), bool(c.running)] for c in mac] if mac else []),
+           "prev_outs": prev_outs}
     # let outstanding jobs finish so that nothing leaks into the next case
     for c in everyone:
         if c.future is not None and not c.future.done():
@@ -346,8 +391,9 @@ def dag_oracle(case, o):
     if marked != reg_fails:
         return f"wrong-failed-flags: functions of {reg_fails} raised but nodes {marked} are marked failed"
     for i in marked:
-        if o["outs"][i] != "nd":
-            return f"output-changed: failing node n{i} has output {o['outs'][i]}"
+        before = o["prev_outs"][i] if o.get("prev_outs") else "nd"
+        if o["outs"][i] != before:
+            return f"output-changed: failing node n{i} has output {o['outs'][i]}, before its run it held {before}"
     if case["macro"] and any(t >= 100 for t in fails):
         if not o["failed"][n]:
             return "parent-not-failed: a child of the nested macro failed but the macro is not marked failed"
